@@ -409,13 +409,13 @@ def run(ctx):
     acc = Acc()
     res = acc.res
     q = ctx.n
-    stream_docs(ctx, acc, "srt", q(1200, 40000), tg.gen_srt_doc, 100, lambda d: d, lambda d: None, tg.srt_nontrivial)
-    stream_docs(ctx, acc, "vtt", q(1200, 40000), tg.gen_vtt_doc, 101, lambda d: d, lambda d: (d[0], d[1]),
+    stream_docs(ctx, acc, "srt", q(1200, 25000), tg.gen_srt_doc, 100, lambda d: d, lambda d: None, tg.srt_nontrivial)
+    stream_docs(ctx, acc, "vtt", q(1200, 25000), tg.gen_vtt_doc, 101, lambda d: d, lambda d: (d[0], d[1]),
                 tg.vtt_nontrivial)
-    stream_docs(ctx, acc, "mdvd", q(1000, 30000), tg.gen_mdvd_doc, 102, lambda d: d, lambda d: None, mdvd_nontriv)
-    stream_dfxp(ctx, acc, q(700, 15000))
-    stream_sami(ctx, acc, q(300, 8000))
-    stream_raw(ctx, acc, q(150, 4000))
+    stream_docs(ctx, acc, "mdvd", q(1000, 20000), tg.gen_mdvd_doc, 102, lambda d: d, lambda d: None, mdvd_nontriv)
+    stream_dfxp(ctx, acc, q(700, 10000))
+    stream_sami(ctx, acc, q(300, 5000))
+    stream_raw(ctx, acc, q(150, 2500))
     if ctx.thorough:
         sweep(ctx, acc)
     res["streams"] = 6
@@ -431,18 +431,19 @@ def run(ctx):
     res["clauses"] = {
         "theorem": ["SRT/WebVTT/DFXP clock and offset/MicroDVD stamp parsers return floor(instant*10^6) for all field "
                     "values, paddings and fraction lengths (C01_*_exact)",
-                    "DFXP begin+dur, WebVTT shift", "SAMI back-filling over all strictly increasing sync lists, 4 s tail"],
-        "correspondence_only": ["document level (line splitting, cue grouping, one caption per non-empty cue, order) "
-                                "for SRT/WebVTT/MicroDVD unless listed under theorems",
-                                "DFXP/SAMI text -> tree (BeautifulSoup / html.parser / lxml)",
-                                "SAMI int(float(start)) on digit strings below 2^53"]}
+                    "DFXP begin+dur, WebVTT shift", "SAMI back-filling over all strictly increasing sync lists, 4 s tail",
+                    "document level of SRT, WebVTT and MicroDVD at string level: one caption per non-empty cue, in order "
+                    "(C01_srt_doc_exact, C01_vtt_doc_exact, C01_mdvd_doc_exact, C01_vtt_validation_transparent)"],
+        "correspondence_only": ["DFXP/SAMI text -> tree (BeautifulSoup / html.parser / lxml)",
+                                "SAMI int(float(start)) on digit strings below 2^53",
+                                "Python int()/isdigit()/\\d outside ASCII digit strings (never generated)"]}
     res["trusted_extra"] = ["C01: Python int()/isdigit()/\\d modelled on ASCII digit strings only"]
     return res
 
 
 def sweep(ctx, acc):
     """thorough: where float truncation used to bite - every MicroDVD frame < 2*10^6 at the default rate (exact
-    arithmetic on the harness side, reader through the public API in blocks), DFXP N.DDD{h,m,s,ms} for N < 100."""
+    arithmetic on the harness side, reader through the public API in blocks), DFXP N.DDD{h,m,s,ms} for N < 50."""
     res = acc.res
     bad = 0
     block = 20000
@@ -461,7 +462,7 @@ def sweep(ctx, acc):
                                       "expected": [exp[k]], "opts": None, "replay": "doc", "input": None})
     units = {"h": 3600 * 10**6, "m": 60 * 10**6, "s": 10**6, "ms": 1000}
     for u, mul in units.items():
-        for n in range(0, 100):
+        for n in range(0, 50):
             rows = []
             exp = []
             for d in range(0, 1000):
@@ -478,7 +479,7 @@ def sweep(ctx, acc):
                                           "document": tg.dfxp_doc([("en", [rows[k]])]), "expected": [exp[k]],
                                           "opts": None, "replay": "doc", "input": None})
     res["distribution"]["sweep_mdvd_frames"] = 2 * 10**6
-    res["distribution"]["sweep_dfxp_offsets"] = 4 * 10**5
+    res["distribution"]["sweep_dfxp_offsets"] = 2 * 10**5
 
 
 def replay(ctx, rec):
